@@ -667,19 +667,30 @@ func main() {
 	g := &gen{r: hx.NewRng(a.Seed)}
 
 	// ---- bounded-exhaustive: every list of k intervals over positions 0..p, every window
-	type ex struct{ k, p int }
-	plan := []ex{{1, 8}, {2, 8}, {3, 5}, {4, 3}}
+	type ex struct {
+		k, p int
+		part bool // thorough tier: the list space is split over three consecutive seeds
+	}
+	plan := []ex{{1, 8, false}, {2, 8, false}, {3, 5, false}, {4, 3, false}}
 	if a.Thorough() {
-		plan = []ex{{1, 9}, {2, 9}, {3, 8}, {4, 5}}
+		plan = []ex{{1, 9, false}, {2, 9, false}, {3, 8, true}, {4, 6, true}}
 	}
 	for _, e := range plan {
 		wins := fmt.Sprintf("all.%d", e.p+1)
+		e := e
 		exhaustive(e.k, e.p, func(ns []*node, idx int) {
+			if e.part && uint64(idx)%3 != a.Seed%3 {
+				return
+			}
 			fill := 0
 			if idx%2 == 1 {
 				fill = 238
 			}
-			opRd(int64(e.p+1), fill, idx%3, wins, ns)
+			mode := idx % 3
+			if e.part {
+				mode = idx % 2 // no HTTP fetches in the large sweeps
+			}
+			opRd(int64(e.p+1), fill, mode, wins, ns)
 			opVw(wins, ns)
 			opCp(ns)
 			if idx%7 == 0 {
